@@ -92,7 +92,13 @@ class Prop(BaseProp):
             elif kind == 5:
                 mode = rng.choice(['di', 'df', 'dd'])
                 a = val(0.3, 3.0)
-                if mode == 'di':
+                if mode == 'di' and rng.below(3) == 0:
+                    # a Python int outside the i32 range is not an integer exponent for the wrapper: it is handed to powf as a float
+                    big = rng.choice([2 ** 32 + 5, -(2 ** 32) + 7, 2 ** 33 + 2, 2 ** 31, -(2 ** 31) - 1, 2 ** 40 + 1])
+                    a = genvals.gen_value(rng, ty, genvals.leaf_rand, re_leaf=lambda r: 1.0 + r.choice([1.0, -1.0, 2.0]) * 1e-9)
+                    out.append({'py': {'id': cid, 'kind': 'op', 'type': tn, 'op': 'pow', 'mode': 'di', 'aux': [big], 'args': [a]},
+                                'steps': [('powf', [f2b(float(big))])], 'args': [a], 'ty': ty})
+                elif mode == 'di':
                     out.append({'py': {'id': cid, 'kind': 'op', 'type': tn, 'op': 'pow', 'mode': 'di', 'aux': [it], 'args': [a]}, 'steps': [('powi', [it])], 'args': [a], 'ty': ty})
                 elif mode == 'df':
                     q = rng.choice([0.5, 2.5, -1.5, 3.0, 1.0, 0.0, 2.0])
